@@ -479,6 +479,66 @@ func topFunc(f *ssa.Function) *ssa.Function {
 	return f
 }
 
+// callerIndex: static callers (outermost enclosing functions) of every function of the node packages.
+var callerIdx = map[*core.Ctx]map[*ssa.Function]map[*ssa.Function]bool{}
+
+func callersIndex(c *core.Ctx) map[*ssa.Function]map[*ssa.Function]bool {
+	if idx, ok := callerIdx[c]; ok {
+		return idx
+	}
+	idx := map[*ssa.Function]map[*ssa.Function]bool{}
+	for _, f := range nodeFuncs(c) {
+		for _, b := range f.Blocks {
+			for _, in := range b.Instrs {
+				ci, ok := in.(ssa.CallInstruction)
+				if !ok {
+					continue
+				}
+				if h := ci.Common().StaticCallee(); h != nil {
+					if idx[h] == nil {
+						idx[h] = map[*ssa.Function]bool{}
+					}
+					idx[h][topFunc(f)] = true
+				}
+			}
+		}
+	}
+	callerIdx[c] = idx
+	return idx
+}
+
+// transparentHelper: f is an unexported function all of whose (static) callers
+// are allow-listed — directly or through another such helper. Extracting lines
+// of an allowed function into a private helper must not turn the helper into a
+// forbidden caller / writer.
+func transparentHelper(c *core.Ctx, f *ssa.Function, allow map[string]string, depth int) (string, bool) {
+	if f == nil || depth > 2 {
+		return "", false
+	}
+	if obj := f.Object(); obj == nil || obj.Exported() {
+		return "", false
+	}
+	callers := callersIndex(c)[f]
+	if len(callers) == 0 {
+		return "", false
+	}
+	var names []string
+	for g := range callers {
+		n := ens.SSAFuncName(g)
+		if _, ok := allow[n]; ok {
+			names = append(names, n)
+			continue
+		}
+		if via, ok := transparentHelper(c, g, allow, depth+1); ok {
+			names = append(names, n+" ← "+via)
+			continue
+		}
+		return "", false
+	}
+	sort.Strings(names)
+	return strings.Join(names, ", "), true
+}
+
 // whoMayCall checks that the enclosing (outermost) functions of all call
 // sites of the targets are exactly those in allow; returns the sites.
 func whoMayCall(c *core.Ctx, rule, what string, targets map[*types.Func]bool, ifaceNames map[string]*types.Interface, allow map[string]string) []whoSite {
@@ -491,6 +551,10 @@ func whoMayCall(c *core.Ctx, rule, what string, targets map[*types.Func]bool, if
 		if why, ok := allow[encl]; ok {
 			if seen[encl] == 1 {
 				c.OK(rule, construct, c.P.Pos(s.Instr.Pos()), "allow-listed: "+why)
+			}
+		} else if via, ok := transparentHelper(c, topFunc(s.Encl), allow, 0); ok {
+			if seen[encl] == 1 {
+				c.OK(rule, construct, c.P.Pos(s.Instr.Pos()), "private helper called only from allow-listed functions: "+via)
 			}
 		} else {
 			c.Fail(rule, construct, c.P.Pos(s.Instr.Pos()), fmt.Sprintf("%s is called from %s, which is not one of the functions allowed to reach it (%s)", s.Label, encl, strings.Join(keys(allow), ", ")))
@@ -579,6 +643,10 @@ func whoMayWrite(c *core.Ctx, rule, fieldSpec string, allow map[string]string) [
 		if why, ok := allow[encl]; ok {
 			if !seen[encl] {
 				c.OK(rule, construct, c.P.Pos(s.Instr.Pos()), "allow-listed: "+why)
+			}
+		} else if via, ok := transparentHelper(c, topFunc(s.Encl), allow, 0); ok {
+			if !seen[encl] {
+				c.OK(rule, construct, c.P.Pos(s.Instr.Pos()), "private helper called only from allowed writers: "+via)
 			}
 		} else {
 			c.Fail(rule, construct, c.P.Pos(s.Instr.Pos()), fmt.Sprintf("field %s is written in %s, which is not an allowed writer (%s)", fv.Name(), encl, strings.Join(keys(allow), ", ")))
